@@ -6,8 +6,12 @@
     appended to the surrounding scope at once and nothing more is submitted) it waits for every
     submitted handler scope in order and appends a failed handler's error to the surrounding
     scope (context [tb_par]); only then it releases the registration ([hold]) that keeps the
-    surrounding scope open.  Flag [shared] = the code before b825941: the handlers ran directly on
-    the surrounding scope (same context for all of them).  Definitions only. *)
+    surrounding scope open.  After fix 3f81e38 the errors (of a rejected submission and of the failed
+    handler scopes) are COLLECTED ([pend]) and appended to the surrounding scope in ONE final step,
+    when every started handler has finished.  Modes: [MFixed] = the current code; [MEarly] = b825941
+    (a rejected submission is appended at once, a handler's error right after that handler's Wait);
+    [MShared] = before b825941 (handlers directly on the surrounding scope, same context for all).
+    Definitions only. *)
 From GC Require Import Common.Base Model.Runner.
 Local Open Scope nat_scope.
 
@@ -19,6 +23,9 @@ Record tryblock := {
   tb_sep : ctxid;                 (* fresh context of the separated scope *)
   tb_par : ctxid;                 (* context of the surrounding scope *)
   tb_cfin : ctxid; tb_cfail : ctxid; tb_csucc : ctxid }.   (* fresh contexts of the handler scopes *)
+
+Inductive tmode := MFixed | MEarly | MShared.
+Definition early (m : tmode) : bool := match m with MFixed => false | _ => true end.
 
 Inductive tpc :=
 | TStart
@@ -32,39 +39,45 @@ Inductive tpc :=
 (** [subd]: the handler scopes submitted so far (the goroutine's [handlers] slice);
     [coll]: ghost — the handlers whose scope has been waited for already. *)
 Record tstate := { rs : state; pc : tpc; hold : bool; catched : option bool;
-                   subd : list (name * ctxid); coll : list name }.
+                   subd : list (name * ctxid); coll : list name;
+                   pend : bool }.    (* the goroutine's [failures] slice is not empty *)
 
 Definition tinit (tb : tryblock) : tstate :=
-  {| rs := init (tb_par tb); pc := TStart; hold := false; catched := None; subd := []; coll := [] |}.
+  {| rs := init (tb_par tb); pc := TStart; hold := false; catched := None; subd := []; coll := []; pend := false |}.
 
-Definition mk (s : state) (p : tpc) (h : bool) (c : option bool) (l : list (name * ctxid)) (g : list name) : tstate :=
-  {| rs := s; pc := p; hold := h; catched := c; subd := l; coll := g |}.
+Definition mk (s : state) (p : tpc) (h : bool) (c : option bool) (l : list (name * ctxid)) (g : list name)
+           (pd : bool) : tstate :=
+  {| rs := s; pc := p; hold := h; catched := c; subd := l; coll := g; pend := pd |}.
 
-Definition hctx (shared : bool) (tb : tryblock) (c : ctxid) : ctxid := if shared then tb_par tb else c.
+Definition hctx (m : tmode) (tb : tryblock) (c : ctxid) : ctxid :=
+  match m with MShared => tb_par tb | _ => c end.
 
 (** Submission of one handler: accepted -> remembered, go on with [next]; rejected -> the error is
     appended to the surrounding scope and the goroutine goes to its deferred block. *)
-Definition submit_handler (shared : bool) (tb : tryblock) (h : subm) (c : ctxid)
+Definition submit_handler (shared : tmode) (tb : tryblock) (h : subm) (c : ctxid)
            (next : list (name * ctxid) -> tpc) (t : tstate) : tstate :=
   let (s1, acc) := create false h (hctx shared tb c) None (rs t) in
   let l := subd t ++ [(s_name h, hctx shared tb c)] in
-  if acc then mk s1 (next l) (hold t) (catched t) l (coll t)
-  else mk (fail_ctx (tb_par tb) s1) (TCollect (subd t)) (hold t) (catched t) (subd t) (coll t).
+  if acc then mk s1 (next l) (hold t) (catched t) l (coll t) (pend t)
+  else if early shared
+       then mk (fail_ctx (tb_par tb) s1) (TCollect (subd t)) (hold t) (catched t) (subd t) (coll t) (pend t)
+       else mk s1 (TCollect (subd t)) (hold t) (catched t) (subd t) (coll t) true.
 
-Definition goto (p : tpc) (t : tstate) : tstate := mk (rs t) p (hold t) (catched t) (subd t) (coll t).
+Definition goto (p : tpc) (t : tstate) : tstate := mk (rs t) p (hold t) (catched t) (subd t) (coll t) (pend t).
 
-Definition try_step (shared : bool) (tb : tryblock) (t : tstate) : option tstate :=
+Definition try_step (shared : tmode) (tb : tryblock) (t : tstate) : option tstate :=
   match pc t with
   | TStart =>
-    if ctx_failed (tb_par tb) (rs t) then Some (mk (rs t) TDone false None [] [])   (* AddTasks: ErrDoned *)
+    if ctx_failed (tb_par tb) (rs t) then Some (mk (rs t) TDone false None (subd t) (coll t) (pend t))   (* AddTasks: ErrDoned *)
     else
       let (s1, acc) := create false (tb_body tb) (tb_sep tb) None (rs t) in
-      if acc then Some (mk s1 TWaitBody true None [] []) else Some (mk s1 TDone false None [] [])
+      if acc then Some (mk s1 TWaitBody true None (subd t) (coll t) (pend t))
+      else Some (mk s1 TDone false None (subd t) (coll t) (pend t))
   | TWaitBody =>
     match find_task (s_name (tb_body tb)) (tasks (rs t)) with
     | Some b => if is_finished (t_st b)
                 then let c := ctx_failed (tb_sep tb) (rs t) in
-                     Some (mk (rs t) (TFinally c) (hold t) (Some c) (subd t) (coll t))
+                     Some (mk (rs t) (TFinally c) (hold t) (Some c) (subd t) (coll t) (pend t))
                 else None
     | None => None
     end
@@ -85,12 +98,15 @@ Definition try_step (shared : bool) (tb : tryblock) (t : tstate) : option tstate
                 else Some (submit_handler shared tb h (tb_csucc tb) TCollect t)
     | None => Some (goto (TCollect (subd t)) t)
     end
-  | TCollect [] => Some (mk (rs t) TDone false (catched t) (subd t) (coll t))
+  | TCollect [] =>
+    let s1 := if pend t && negb (early shared) then fail_ctx (tb_par tb) (rs t) else rs t in
+    Some (mk s1 TDone false (catched t) (subd t) (coll t) (pend t))
   | TCollect ((hn, hc) :: rest) =>
     match find_task hn (tasks (rs t)) with
     | Some x => if is_finished (t_st x)
-                then let s1 := if ctx_failed hc (rs t) then fail_ctx (tb_par tb) (rs t) else rs t in
-                     Some (mk s1 (TCollect rest) (hold t) (catched t) (subd t) (coll t ++ [hn]))
+                then let f := ctx_failed hc (rs t) in
+                     let s1 := if f && early shared then fail_ctx (tb_par tb) (rs t) else rs t in
+                     Some (mk s1 (TCollect rest) (hold t) (catched t) (subd t) (coll t ++ [hn]) (pend t || f))
                 else None
     | None => None
     end
@@ -101,18 +117,18 @@ Definition try_step (shared : bool) (tb : tryblock) (t : tstate) : option tstate
     errors) and the pip:try thread. *)
 Inductive tlabel := TLTask (n : name) | TLAbort (n : name) | TLTry.
 
-Definition with_rs (s : state) (t : tstate) : tstate := mk s (pc t) (hold t) (catched t) (subd t) (coll t).
+Definition with_rs (s : state) (t : tstate) : tstate := mk s (pc t) (hold t) (catched t) (subd t) (coll t) (pend t).
 
-Definition tstep (shared : bool) (tb : tryblock) (l : tlabel) (t : tstate) : option tstate :=
+Definition tstep (shared : tmode) (tb : tryblock) (l : tlabel) (t : tstate) : option tstate :=
   match l with
   | TLTask n => match step false (LTask n) (rs t) with Some s => Some (with_rs s t) | None => None end
   | TLAbort n => match step false (LAbort n) (rs t) with Some s => Some (with_rs s t) | None => None end
   | TLTry => try_step shared tb t
   end.
 
-Definition tstep_skip (shared : bool) (tb : tryblock) (t : tstate) (l : tlabel) : tstate :=
+Definition tstep_skip (shared : tmode) (tb : tryblock) (t : tstate) (l : tlabel) : tstate :=
   match tstep shared tb l t with Some t' => t' | None => t end.
-Definition trun (shared : bool) (tb : tryblock) (sched : list tlabel) (t : tstate) : tstate :=
+Definition trun (shared : tmode) (tb : tryblock) (sched : list tlabel) (t : tstate) : tstate :=
   fold_left (tstep_skip shared tb) sched t.
 
 (** Final: the goroutine returned and every registered task finished. *)
